@@ -260,6 +260,7 @@ const preamble = `(set-option :produce-models true)
 (declare-sort Str 0)
 (declare-fun slen (Str) Int)
 (declare-fun sat (Str Int) Int)
+(declare-fun strlt (Str Str) Bool)
 (declare-fun ssub (Str Int Int) Str)
 (declare-fun scat (Str Str) Str)
 (declare-fun strrow (Str) (Array Int Int))
